@@ -50,7 +50,8 @@ def split_top(s_):
 
 
 def rows_family(run, rng, n):
-    """Implementation only (the data model sorts numbers and strings, not rows): a table whose rows are also held by variables.
+    """Implementation only (kept beside the model-based family `table-sort`, which since the model's sort_table compares such
+    histories with the model): a table whose rows are also held by variables.
     An in-place operation on the TABLE (sort, reverse, resize, deleteAt, pushBack, set) rearranges slots, it does not replace
     the row objects: when every row is afterwards changed through its own variable, every slot of the table shows the changed
     row, and a second name of the table shows the same table."""
@@ -387,14 +388,26 @@ def main(replay=None):
             cases.append(D.Case("cycle", 4, g.cycle_history()))
         for _ in range(2000 if thorough else 250):
             cases.append(D.Case("shared-rows", 6, g.shared_rows_history()))
+        for _ in range(4000 if thorough else 450):
+            cases.append(D.Case("table-sort", 6, g.table_history()))
 
     res = D.run_cases(run, cases, drv, himpl, "000000")
     known_flags = "".join("1" if run.known.has(PID, k) else "0" for k in SWITCHES)
     suspects = []
     kinds, distinct, samples = {}, set(), []
     nops = ninv = 0
+    tsort = {"sorted": 0, "refused": 0, "outside_model": 0, "rows>16": 0}
     for r in res:
         c = r["case"]
+        if c.kind == "table-sort":
+            # what became of the sorts of this family in the model (sorted in place / refused by the type checks / dropped)
+            for m in r["model_all"]:
+                if b" sort " in V.unhx(m[1]):
+                    if m[0] == "I": tsort["outside_model"] += 1
+                    elif m[0] == "D" and m[2]: tsort["refused"] += 1
+                    elif m[0] == "D":
+                        tsort["sorted"] += 1
+                        if len(m) > 8 and V.unhx(m[8].split(":")[1]).count(b"[") > 17: tsort["rows>16"] += 1
         kinds[c.kind.split(":")[0]] = kinds.get(c.kind.split(":")[0], 0) + 1
         nops += len(r["model"])
         ninv += len(r["model_all"]) - len(r["model"])
@@ -467,9 +480,14 @@ def main(replay=None):
     run.cov["histories"] = len(cases)
     run.cov["distinct_nontrivial"] = len(distinct)
     run.cov["operations_outside_model_dropped"] = ninv
+    run.cov["table_sorts"] = tsort
     run.cov["rule"] = ("operation histories (<= 40 operations over <= 6 variables: set pushBack pushBackUnique append deleteAt deleteRange "
                        "resize reverse sort + - select +copy, HashMap set/createHashMapFromArray/get, aliases through `v = w` and "
-                       "`v = w select i`, operands that are variables, elements, wrapped variables [v] and literals) and cycle "
+                       "`v = w select i`, operands that are variables, elements, wrapped variables [v] and literals), table histories "
+                       "(rows of one shape - number columns with NaN / -0 / infinities, string columns, columns the comparator passes over - held by "
+                       "variables and by a table with two names, 2-40 rows; sort ascending / descending through either name, rows then changed through "
+                       "their variable or a slot of the table, sorted again; rows of another size / type and elements that are no rows for the "
+                       "refusals; table_sorts = what the model made of these sorts) and cycle "
                        "attempts (every inserting operator with the container itself, an alias, [itself] or an intermediate "
                        "container as operand); after every operation the diagnostics (level:code), the result and the print of "
                        "every variable (raw and with HashMap entries sorted) are compared with the model; evaluations = "
